@@ -17,6 +17,7 @@ var vxAlphabets = [][]byte{
 	[]byte("'\"`$-/*\\\n a1.@<>=!(;eE_:#"),        // 1: lexical alphabet
 	[]byte("a1'-/* \t\n\r"),                        // 2: position alphabet
 	[]byte("-/*\na "),                              // 3: comment alphabet
+	[]byte("a ,"),                                  // 4: token-count alphabet
 }
 
 // vxInput returns a symbolic input of length 0..maxN over alphabet alpha.
